@@ -23,7 +23,10 @@ Inductive xi :=
 | XJmpPc (t : Z)                      (* emit_jmp: to the code of eBPF instruction t (displacement fixed up later: C03_jump_fixup) *)
 | XJccPc (code t : Z)                 (* emit_jcc: conditionally to the code of eBPF instruction t *)
 | XOpSize                             (* a lone 0x66 operand-size prefix, applying to the instruction emitted next *)
-| XBswap (w r : Z).                   (* [REX.W] 0F C8+r: bswap r32 / r64 *)
+| XBswap (w r : Z)                    (* [REX.W] 0F C8+r: bswap r32 / r64 *)
+| XCallRel (n : Z)                    (* E8 rel32 with a literal displacement: call the code n bytes further on *)
+| XCallPc                             (* E8 rel32 to the code of another eBPF instruction (fixed up later) *)
+| XRet.                               (* C3 *)
 
 Definition regs := Z -> Z.
 Definition rset (R : regs) (r v : Z) : regs := fun x => if x =? r then v else R x.
